@@ -338,7 +338,7 @@ class CEval:
             return self.env[e[1]]
         if h == "idx":
             return self.env[self.lv(e)]
-        if h in ("cast", "narrow"):
+        if h in ("cast", "narrow", "widen"):
             return self.ex(e[3])
         if h == "un":
             v = self.ex(e[2])
